@@ -289,7 +289,8 @@ func ZZ_C14_history() {
 	ref := zzNewRef()
 	n := 1 + zzsym.Pick("nops", zzMaxOps())
 	for i := 0; i < n; i++ {
-		if i > 0 && zzsym.Bool("reopen") {
+		// (reopening between operations is explored on the histories of up to 2 mutators)
+		if i > 0 && n < 3 && zzsym.Bool("reopen") {
 			s = New(kv)
 		}
 		switch i {
@@ -301,7 +302,7 @@ func ZZ_C14_history() {
 			zzApplyOp("o2.", k, s, ref)
 		}
 	}
-	if zzsym.Bool("reopen-before-read") {
+	if n == 3 || zzsym.Bool("reopen-before-read") {
 		s = New(kv)
 	}
 	zzsym.Reach("history-done")
